@@ -111,6 +111,9 @@ TEMPLATES = [
     Tpl("pointer_after_other_placeholder", PP, "{_1} at {_0:p}", unwind=24, quick=True),
     Tpl("pointer_between_others", PP, "{_0:?}{_1:p}{_0:p}{}", "_1", unwind=24),
     Tpl("raw_identifier_field", [("r#type", "Probe"), ("r#fn", "Probe")], "{type}/{fn:?}", named=True, quick=True),
+    # raw-identifier fields under Pointer next to other text: the field itself is formatted, not a reference to it (seed
+    # C02-raw-field-pointer-arg-not-appended)
+    Tpl("raw_identifier_pointer_field", [("r#ref", "Probe"), ("r#box", "Probe")], "{ref:p} in {box}|{box:p}", named=True, unwind=24, quick=True),
     Tpl("arithmetic_on_u8_field", [("n", "u8"), ("q", "Probe")], "{}:{q}", "*n % 10 + 1", named=True, unwind=12),
     Tpl("text_only", PP, "no placeholders, just text é"),
     Tpl("trailing_whitespace", ["Probe"], "{_0}\\n", quick=True),
